@@ -17,6 +17,15 @@ CHECKS = {
         note="Trusted: TLC, the 60-line adapter that concretises abstract images (identity class I2 differs from I1 in "
              "one rotating attribute), the recorder's projection. Bounded: 4-image pool, depth 3/4 exhaustive, 9/12 random.",
         design="4 C09"),
+    "C11": dict(
+        technique="TLA+ state machine Forest.tla: TLC model check (requirement invariants + shipped lookup/get_variants algorithms, Dev_* deviations) + full state-graph walk replayed on the real variant classes",
+        text="TLC checks UidAligned/ArchSubset/UidUnique/ParentMirror/Findable/GetVSound/RefusedNoop on the reference model "
+             "and reproduces each of the four as-shipped defects on its Dev_* deviation; every distinct forest TLC reaches "
+             "(12-object pool incl. duplicate ids, foreign arches, misaligned and dashed UIDs, depth 3) is rebuilt on the real "
+             "classes, every outgoing add transition (accepted and refused) is executed and compared, and every lookup and "
+             "get_variants filter combination is checked before and after a write/read cycle.",
+        note="Trusted: TLC, the adapter's projection of .variants/.parent, three name and two arch concretisations. Bounded by the pool (<= 10 filed variants).",
+        design="4 C11"),
 }
 
 
